@@ -614,6 +614,25 @@ def loop_closure_binding(ctx: Ctx):
                              f'the function created in the loop reads {sorted(captured)} by name after the iteration that created it: all such '
                              "functions see the last iteration's values (bind with functools.partial or a default argument)",
                              construct=f'closure@{src(loop.target)}:{",".join(sorted(captured))}')
+        # the same trap in a comprehension: `[lambda k: f(t, k) for t in types]` - every lambda sees the last `t`
+        for comp in [x for x in walk_local_nodes(fn.node) if isinstance(x, (ast.ListComp, ast.SetComp, ast.DictComp, ast.GeneratorExp))]:
+            cvars = set()
+            for gen in comp.generators:
+                cvars.update(target_names(gen.target))
+            elts = [comp.key, comp.value] if isinstance(comp, ast.DictComp) else [comp.elt]
+            for e in elts:
+                for f in [x for x in ast.walk(e) if isinstance(x, ast.Lambda)]:
+                    captured = _free_names(f) & cvars
+                    if not captured:
+                        continue
+                    # called on the spot inside the element expression: `(lambda: g(t))()`
+                    if any(isinstance(c, ast.Call) and c.func is f for c in ast.walk(e)):
+                        continue
+                    n += 1
+                    yield ctx.ob('SWEEP.LOOP-CLOSURE-BINDING', False, fn, f, f'closure created per `{", ".join(sorted(cvars))}` binds its values now',
+                                 f'each lambda built by the comprehension reads {sorted(captured)} by name when it is called, i.e. the value of the '
+                                 "last element: all of them behave like the last one (bind with functools.partial or a default argument)",
+                                 construct=f'closure@comp:{",".join(sorted(captured))}')
     yield ctx.ob('SWEEP.LOOP-CLOSURE-BINDING', True, None, None, f'closures in loops scanned, {n} late bindings', construct='scan', path='labtech/')
 
 
@@ -744,3 +763,32 @@ def param_not_rebound_by_loop(ctx: Ctx):
                                  f'the loop re-binds the parameter `{name}`; the read at line {getattr(g.node(reads[0]).ast, "lineno", "?")} after the loop '
                                  'sees the last element (or the argument, if the loop did not run), not the argument')
     yield ctx.ob('SWEEP.PARAM-NOT-REBOUND-BY-LOOP', True, None, None, f'loops scanned, {n} parameters shadowed', construct='scan', path='labtech/')
+
+
+@rule('SWEEP.SHARED-MUTABLE-FILL', _ALL_SCOPED)
+def shared_mutable_fill(ctx: Ctx):
+    """`dict.fromkeys(keys, {})`, `[[]] * n`, `[set()] * n`: every key / slot refers to the *same* container, so an entry
+    recorded for one key shows up under all of them."""
+    n = 0
+
+    def mutable(e: ast.AST) -> bool:
+        return isinstance(e, (ast.Dict, ast.List, ast.Set, ast.DictComp, ast.ListComp, ast.SetComp)) or \
+            (isinstance(e, ast.Call) and (dotted_name(e.func) or '').split('.')[-1] in
+             {'dict', 'list', 'set', 'defaultdict', 'deque', 'OrderedDict', 'Counter', 'OrderedSet', 'bytearray'})
+
+    for fn in ctx.P.all_functions():
+        if ctx.pid is not None and ctx.pid not in scope_of(fn):
+            continue
+        for x in walk_local_nodes(fn.node):
+            bad = None
+            if isinstance(x, ast.Call) and isinstance(x.func, ast.Attribute) and x.func.attr == 'fromkeys' and len(x.args) == 2 and mutable(x.args[1]):
+                bad = x.args[1]
+            elif isinstance(x, ast.BinOp) and isinstance(x.op, ast.Mult):
+                for side in (x.left, x.right):
+                    if isinstance(side, (ast.List, ast.Tuple)) and any(mutable(e) for e in side.elts):
+                        bad = side
+            if bad is not None:
+                n += 1
+                yield ctx.ob('SWEEP.SHARED-MUTABLE-FILL', False, fn, x, 'each key / slot gets its own container',
+                             f'`{src(x)[:60]}` puts one and the same `{src(bad)[:20]}` object under every key / in every slot: what is added for one is seen for all')
+    yield ctx.ob('SWEEP.SHARED-MUTABLE-FILL', True, None, None, f'fills scanned, {n} shared containers', construct='scan', path='labtech/')
